@@ -29,15 +29,70 @@ Definition spline_names (const_names : list string) : list string :=
   sdedupe (map (fun n => repl "::Spline::Max" "" (repl "::Spline::Min" "" (repl "::Spline::N" "" n)))
                (filter (contains "Spline") const_names)) [].
 
-(* strip_pararray: the parameters whose name contains `begin`, under their programmatic names (the order inside an array —
-   by the integer after `begin` — is examined on the text; it does not matter for declaration before use) *)
-Definition pararray (par_names : list string) (begin : string) : list string :=
-  map programmatic (filter (contains begin) par_names).
+(* strip_pararray(pars, begin, convert): the parameters whose name contains `begin`, ordered by the integer that convert makes of
+   name[len(begin):] (int(...) for the spline and f_scatt families; i*6 + index of the channel name for IS_p<i>_<channel>), under their
+   programmatic names.  None: int() / names.index raise (ValueError) — the conversion fails.  Integers are digit strings here
+   (Python's int() also takes signs, blanks and underscores: outside the domain).  pandas' sort_index is not stable: two members
+   with the same integer are outside the domain as well (the theorem about the order assumes distinct keys). *)
+Definition sy_digit (c : ascii) : bool := let n := nat_of_ascii c in Nat.leb 48 n && Nat.leb n 57.
+Fixpoint digits_val (s : string) (acc : Z) : option Z :=
+  match s with
+  | EmptyString => Some acc
+  | String c r => if sy_digit c then digits_val r (acc * 10 + Z.of_nat (nat_of_ascii c - 48))%Z else None
+  end.
+Definition parse_int (s : string) : option Z := match s with EmptyString => None | _ => digits_val s 0%Z end.
 
-Definition arrays (par_names const_names : list string) : list (string * list string) :=
-  app (map (fun s => (programmatic s ++ "_SplineArr", pararray par_names (s ++ "::Spline::Gamma::"))) (spline_names const_names))
-  (app (match filter (contains "f_scatt") par_names with [] => [] | _ => [("f_scatt", pararray par_names "f_scatt")] end)
-       (match filter (contains "IS_p") par_names with [] => [] | _ => [("IS_poles", pararray par_names "IS_p")] end)).
+Fixpoint sdrop (n : nat) (s : string) : string :=
+  match n, s with S k, String _ r => sdrop k r | _, _ => s end.
+
+Fixpoint split_us (s cur : string) : list string :=
+  match s with
+  | EmptyString => [cur]
+  | String c r => if is_c c "_" then cur :: split_us r "" else split_us r (cur ++ String c "")
+  end.
+
+Definition IS_NAMES : list string := ["pipi"; "KK"; "4pi"; "EtaEta"; "EtapEta"; "mass"].
+
+Definition key_plain (begin name : string) : option Z := parse_int (sdrop (String.length begin) name).
+Definition key_is (begin name : string) : option Z :=
+  match split_us (sdrop (String.length begin) name) "" with
+  | i :: j :: _ => match parse_int i, index_of j IS_NAMES with
+                   | Some a, Some b => Some (a * 6 + Z.of_nat b)%Z
+                   | _, _ => None
+                   end
+  | _ => None
+  end.
+
+Fixpoint ins_key (x : Z * string) (l : list (Z * string)) : list (Z * string) :=
+  match l with
+  | [] => [x]
+  | y :: r => if Z.ltb (fst x) (fst y) then x :: l else y :: ins_key x r
+  end.
+Definition sort_keyed (l : list (Z * string)) : list (Z * string) := fold_right ins_key [] l.
+
+Definition keyed (key : string -> string -> option Z) (par_names : list string) (begin : string) : option (list (Z * string)) :=
+  mapM (fun n => option_map (fun k => (k, n)) (key begin n)) (filter (contains begin) par_names).
+
+Definition pararray (key : string -> string -> option Z) (par_names : list string) (begin : string) : option (list string) :=
+  option_map (fun kn => map (fun x => programmatic (snd x)) (sort_keyed kn)) (keyed key par_names begin).
+
+Definition arrays (par_names const_names : list string) : option (list (string * list string)) :=
+  match mapM (fun s => option_map (fun els => (programmatic s ++ "_SplineArr", els)) (pararray key_plain par_names (s ++ "::Spline::Gamma::")))
+             (spline_names const_names) with
+  | None => None
+  | Some sp =>
+      match (match filter (contains "f_scatt") par_names with
+             | [] => Some []
+             | _ => option_map (fun els => [("f_scatt", els)]) (pararray key_plain par_names "f_scatt")
+             end),
+            (match filter (contains "IS_p") par_names with
+             | [] => Some []
+             | _ => option_map (fun els => [("IS_poles", els)]) (pararray key_is par_names "IS_p")
+             end) with
+      | Some fsc, Some isp => Some (app sp (app fsc isp))
+      | _, _ => None
+      end
+  end.
 
 Definition KM_PARS : list string := ["sA_0"; "sA"; "s0_prod"; "s0_scatt"].
 
@@ -76,21 +131,20 @@ Variable fuel : nat.
 Definition const_names_of (f : list oline) : list string :=
   flat_map (fun o => match o with OConst n _ => [n] | _ => [] end) f.
 
-(* None: the conversion raises (reading fails, or an amplitude cannot be emitted) *)
+(* None: the conversion raises (reading fails, an amplitude cannot be emitted, or an array index is not an integer) *)
 Definition symbols (config : bool) (f : list oline) : option symout :=
   match convert pid_of info sfk fuel config f with
   | None => None
   | Some c =>
-      match all_some (c_amps c) with
-      | None => None
-      | Some es =>
-          let par_names := map pd_name (c_pars c) in
+      match all_some (c_amps c), arrays (map pd_name (c_pars c)) (const_names_of f) with
+      | Some es, Some arrs =>
           Some {| so_consts := map fst (c_massconsts c);
                   so_resvars := flat_map (fun x => match x with (n, _, _) => [n ++ "_M"; n ++ "_W"] end) (c_resvars c);
                   so_masses := c_masses_line c;
                   so_pars := map pd_pname (c_pars c);
-                  so_arrays := arrays par_names (const_names_of f);
+                  so_arrays := arrs;
                   so_amps := map (fun e => map ls_uses (e_lines e)) es |}
+      | _, _ => None
       end
   end.
 End Sym.
